@@ -551,3 +551,72 @@ canary('c10-reference-not-captured', 'C10', DEC, """        OwnedTerm::Reference
             let _ = &local_ext_bytes;
             OwnedTerm::Reference(reference)
         }""", 'no-capture')
+
+# ---- C11 / C12 ----
+TERM = 'crates/erltf/src/term.rs'
+canary('c11-nil-list-greater', 'C11', TERM, """                (OwnedTerm::Nil, OwnedTerm::List(b)) => {
+                    if b.is_empty() {
+                        Ordering::Equal
+                    } else {
+                        Ordering::Less
+                    }
+                }""", """                (OwnedTerm::Nil, OwnedTerm::List(b)) => {
+                    if b.is_empty() {
+                        Ordering::Equal
+                    } else {
+                        Ordering::Greater
+                    }
+                }""", 'MIRROR:')
+canary('c11-drop-bigint-float-arm', 'C11', TERM, "                (OwnedTerm::BigInt(a), OwnedTerm::Float(b)) => compare_bigint_float(a, *b),\n", "", 'PAIRS:')
+canary('c11-borrowed-helper-drift', 'C11', BOR, """        if big.digits.len() > 8 {
+            return Ordering::Greater;
+        }
+        let abs_i = i.wrapping_neg() as u64;""", """        if big.digits.len() > 7 {
+            return Ordering::Greater;
+        }
+        let abs_i = i.wrapping_neg() as u64;""", 'TWIN:helper')
+canary('c11-hash-bits-again', 'C11', TERM, "                let f = if *f == 0.0 { 0.0 } else { *f };\n", "                let f = *f;\n", 'EQHASH')
+canary('c11-funs-const', 'C11', TERM, "                (OwnedTerm::InternalFun(_), OwnedTerm::ExternalFun(_)) => Ordering::Greater,", "                (OwnedTerm::InternalFun(_), OwnedTerm::ExternalFun(_)) => Ordering::Less,", 'MIRROR:')
+canary('c11-borrowed-arm-differs', 'C11', BOR, "                (BorrowedTerm::Integer(a), BorrowedTerm::Float(b)) => compare_int_float(*a, *b),", "                (BorrowedTerm::Integer(a), BorrowedTerm::Float(b)) => compare_float_int(*b, *a),", 'TWIN:cmp')
+canary('c12-swap-port-pid', 'C12', TERM, "        OwnedTerm::Port(_) => 4,\n        OwnedTerm::Pid(_) => 5,", "        OwnedTerm::Port(_) => 5,\n        OwnedTerm::Pid(_) => 4,", 'rank')
+canary('c12-bigint-lsb', 'C12', TERM, ".then_with(|| a.digits.iter().rev().cmp(b.digits.iter().rev())),", ".then_with(|| a.digits.cmp(&b.digits)),", 'lsb-first')
+canary('c12-map-interleaved', 'C12', TERM, """                    for (k1, k2) in a.keys().zip(b.keys()) {
+                        match k1.cmp(k2) {
+                            Ordering::Equal => continue,
+                            other => return other,
+                        }
+                    }
+                    for (v1, v2) in a.values().zip(b.values()) {
+                        match v1.cmp(v2) {
+                            Ordering::Equal => continue,
+                            other => return other,
+                        }
+                    }""", """                    for ((k1, v1), (k2, v2)) in a.iter().zip(b.iter()) {
+                        match k1.cmp(k2) {
+                            Ordering::Equal => match v1.cmp(v2) {
+                                Ordering::Equal => continue,
+                                other => return other,
+                            },
+                            other => return other,
+                        }
+                    }""", 'interleaved')
+canary('c12-tuple-elements-first', 'C12', TERM, """                (OwnedTerm::Tuple(a), OwnedTerm::Tuple(b)) => {
+                    a.len().cmp(&b.len()).then_with(|| {
+                        for (x, y) in a.iter().zip(b.iter()) {
+                            match x.cmp(y) {
+                                Ordering::Equal => continue,
+                                other => return other,
+                            }
+                        }
+                        Ordering::Equal
+                    })
+                }""", """                (OwnedTerm::Tuple(a), OwnedTerm::Tuple(b)) => {
+                    for (x, y) in a.iter().zip(b.iter()) {
+                        match x.cmp(y) {
+                            Ordering::Equal => continue,
+                            other => return other,
+                        }
+                    }
+                    a.len().cmp(&b.len())
+                }""", 'size-first')
+canary('c12-borrowed-rank', 'C12', BOR, "                BorrowedTerm::Map(_) => 7,", "                BorrowedTerm::Map(_) => 5,", 'rank')
